@@ -330,7 +330,7 @@ class CHText:
         if self is other:
             return True
 
-        if isinstance(other, type(self)):
+        if isinstance(other, CHText):
             if len(self.chunks) != len(other.chunks):
                 return False
             return all(p0 == p1 for p0, p1 in zip(self.chunks, other.chunks))
@@ -356,7 +356,7 @@ class CHText:
         elif isinstance(other, (list, tuple)):
             for part in other:
                 self += part
-        elif isinstance(other, type(self)):
+        elif isinstance(other, CHText):
             # (copy of the list is required for the 'text += text' case)
             for part in list(other.chunks):
                 self._append_chunk(part)
